@@ -147,7 +147,7 @@ def main():
     from concurrent.futures import ThreadPoolExecutor
     with ThreadPoolExecutor(nw) as ex:
         # every other worker first performs unrelated failing / raising checks (the verdicts must not depend on them: C12)
-        outs = list(ex.map(lambda kc: vf.impl("impl_calls.py", {"cases": kc[1], "prelude": kc[0] % 2 == 1}), list(enumerate(chunks))))
+        outs = list(ex.map(lambda kc: vf.impl("impl_calls.py", {"cases": kc[1], "prelude": kc[0] % 2 == 1}, bg=(kc[0] % 4 == 2)), list(enumerate(chunks))))
     cat_dtypes = {}
     results = {}
     for ch, o in zip(chunks, outs):
